@@ -91,7 +91,8 @@ def gen_event(rng, odd=True, uid="ev@verif"):
         hd = D.date(2000, rng.randint(1, 12), rng.randint(1, 28))
         dtstart = hd.replace(year=hy) if is_date else D.datetime.combine(hd.replace(year=hy), dtstart.time())
     if is_date:
-        params += ";VALUE=DATE"
+        # parameters come in any order
+        params = (params + ";VALUE=DATE") if rng.random() < 0.5 else (";VALUE=DATE" + params)
     nr = rng.choice([1, 1, 1, 1, 2, 3])
     rules = []
     for _ in range(nr):
